@@ -8,6 +8,7 @@ arbitrary RFC 8259 whitespace in every gap).  The index is `JsonIndex::build` as
 -/
 import SuccinctlyVerif.Proof.JsonNav
 import SuccinctlyVerif.Proof.JsonNavTree
+import SuccinctlyVerif.Proof.JsonNavDecode
 namespace SV.Props.C06
 open SV SV.JsonNav SV.JsonText SV.JsonSemi
 
@@ -54,6 +55,19 @@ theorem raw_and_escaped_eq (x : Index) (start : Nat) :
 theorem number_span_eq (x : Index) (start : Nat) :
     nestedNumberSpan x start = start + ((x.text.toList.drop start).takeWhile isSpanByte).length :=
   nestedNumberSpan_eq x start
+
+/-- `decode_escapes(bytes)` equals the specification string-body decoder `specDecodeAll` (runs of
+unescaped bytes must be well-formed UTF-8 and are copied; the eight two-character escapes; `\uXXXX`
+for non-surrogates; a high surrogate must be immediately followed by a `\u` low surrogate and the pair
+denotes one scalar value; the result is UTF-8) on EVERY byte string, and fails with the same error
+(`InvalidUtf8` / `InvalidEscape` / `InvalidUnicodeEscape`) in every other case. -/
+theorem decode_escapes_eq (bs : List (BitVec 8)) : decodeEscapes bs = specDecodeAll bs :=
+  decodeEscapes_eq bs
+
+example : decodeEscapes [0x5C#8, 0x75#8, 0x64#8, 0x38#8, 0x33#8, 0x64#8, 0x5C#8, 0x75#8, 0x64#8, 0x65#8, 0x30#8, 0x30#8]
+    = .ok [0xF0#8, 0x9F#8, 0x98#8, 0x80#8] ∧
+    decodeEscapes [0x5C#8, 0x75#8, 0x64#8, 0x38#8, 0x30#8, 0x30#8, 0x41#8] = .error .invalidUnicodeEscape := by
+  decide +kernel
 
 example : findStringEnd ⟨#[0x22#8, 0x61#8, 0x5C#8, 0x22#8, 0x62#8, 0x22#8, 0x20#8], Prims.spec [] []⟩ 0 = 5 := by
   decide
